@@ -178,7 +178,7 @@ PROPS["C14"] = dict(
     level_text="set_primal replaces the incumbent exactly when the new value is strictly greater (proved); a run started from any primal that belongs to a feasible solution satisfies the coverage invariant initially, hence (process_inv, complete_optimal) ends exact with max(primal, optimum). Tape validation covers runs with a primal taken from a random feasible solution (often equal to the optimum).",
     level_note="Partial: sequential model only; same hypotheses as C01.",
     engines=SEQ_ENGINES, trusted_base=SEQ_TB,
-    assumptions=["as C01"], rule=SEQ_RULE, trivial_tags=SEQ_TRIVIAL,
+    assumptions=["as C01"], rule=SEQ_RULE + "; after the feasible primal, an equal-valued and a smaller primal with marker solutions are supplied too: they must not replace it", trivial_tags=SEQ_TRIVIAL,
 )
 PROPS["C19"] = dict(
     modules=["DdoModel.Props.C05"],
@@ -266,6 +266,8 @@ PROPS["C03"] = dict(
 # the parallel parts of C02 / C05 ride on the same engine
 PROPS["C02"]["engines"] = PROPS["C02"]["engines"] + PAR_ENGINES + [dict(name="parstress")]
 PROPS["C03"]["engines"] = PROPS["C03"]["engines"] + [dict(name="parstress")]
+PROPS["C14"]["engines"] = PROPS["C14"]["engines"] + [PAR_ENGINES[0]]
+PROPS["C14"]["trivial_tags"] = PROPS["C14"]["trivial_tags"] + PAR_TRIVIAL
 PROPS["C05"]["engines"] = PROPS["C05"]["engines"] + [PAR_ENGINES[2]]
 PROPS["C05"]["level_note"] = "Partial: the parallel abort path is covered by trace validation + phi (bounds at every cutoff point of every explored schedule; this is how defect D4 was found, repaired by fix 976f40b), not yet by a theorem (par_cutoff_bounds stated)."
 PROPS["C05"]["stated_not_proved"] = ["par_cutoff_bounds (parallel part): evaluated by phi on every scheduled run with a cutoff"]
